@@ -126,3 +126,5 @@ def run(chk, F):
     chk.run_rule("C04.tombstone-append", "append writes at the tail, advances it, flushes on page change and before returning", 6, C10.append, F)
     chk.run_rule("C04.reclaim-order", "reclaim: index entries removed, block cleaned (first page zeroed), then released", 4, C09.release_raii, F)
     chk.run_rule("C04.io-result-checked", "the Result of every device read / write in the block engine is propagated, matched or handed on — never dropped", 9, common.io_result_checked, F)
+    from rules import mustcall
+    mustcall.run_for(chk, F, "C04")
